@@ -994,7 +994,16 @@ def byte_partition(b, F, subject_is):
                 s = {o for o in ALL if _cmp(kx, t[1], o)}
         elif t[0] == "call" and t[1]:
             fn = t[1]
-            if fn.endswith("::contains") and len(t[3]) == 2 and subject_is(deep_strip(t[3][1])):
+            if re.search(r"PartialEq(<.*>)?::(eq|ne)$|::(eq|ne)$", fn) and len(t[3]) == 2:
+                # `subject == CONST` through PartialEq (newtype constants such as the int_enum! types)
+                x, y = deep_strip(t[3][0]), deep_strip(t[3][1])
+                kx, ky = const_value(x), const_value(y)
+                k_ = ky if (ky is not None and subject_is(x)) else kx if (kx is not None and subject_is(y)) else None
+                if isinstance(k_, int) and not isinstance(k_, bool):
+                    s = {k_} & ALL
+                    if fn.endswith("ne"):
+                        s = ALL - s
+            elif fn.endswith("::contains") and len(t[3]) == 2 and subject_is(deep_strip(t[3][1])):
                 rng = deep_strip(t[3][0])
                 if rng[0] == "agg" and str(rng[1][1]).endswith("::Range"):
                     lo, hi = const_value(rng[2][0]), const_value(rng[2][1])
